@@ -832,8 +832,8 @@ func c39Core() []c39Case {
 		{"shard4", "binary", 5, "eq", "small", false},
 		// one backend delivering 3, 4, 5 chunks: every chunk loop (sharded fetch-all, streaming) must go round more than twice
 		{"single", "text", -1, "free", "m36x1", false},
-		{"shard2", "binary", -1, "free", "m50x3", false},
-		{"unshard", "text", -1, "free", "m70x1", false},
+		{"shard2", "binary", -1, "free", "m36x3", false},
+		{"unshard", "text", -1, "free", "m50x1", false},
 	}
 }
 
@@ -894,7 +894,7 @@ func TestVerif_C39(t *testing.T) {
 	} else {
 		list = append(list, c39Core()...)
 		r := kit.SubRand(kit.Seed(), "C39/sample")
-		for i := 0; i < 36; i++ {
+		for i := 0; i < 32; i++ {
 			c := all[r.Intn(len(all))]
 			// keep the quick tier within its byte budget: at most every third sampled case is a 33 MiB / giant one,
 			// at most every ninth a multi-chunk (36-70 MiB per backend) one
